@@ -259,3 +259,27 @@ def leaves(cfg: CFG, node: Node, expr: Optional[ast.AST], depth: int = 5, limit:
             return go(e.value, at, d, stack)
         return [(e, at)]
     return [x for x, _ in go(expr, node, depth, ())] if expr is not None else []
+
+
+def maybe_unbound_loads(cfg: CFG, node: Node) -> List[str]:
+    """Local names read by *node* that may still be unbound when it runs (a path from the entry reaches it without
+    any assignment): reading them raises UnboundLocalError."""
+    if node.ast is None or not isinstance(node.ast, ast.expr):
+        return []
+    rd = rdefs(cfg)
+    scope = cfg.scope
+    out = []
+    seen = set()
+    stack = [node.ast]
+    while stack:
+        x = stack.pop()
+        if isinstance(x, (ast.Lambda, ast.FunctionDef, ast.AsyncFunctionDef, ast.ListComp, ast.SetComp, ast.DictComp, ast.GeneratorExp)) and x is not node.ast:
+            continue
+        if isinstance(x, ast.Name) and isinstance(x.ctx, ast.Load) and x.id not in seen:
+            seen.add(x.id)
+            if x.id in scope.locals and x.id not in scope.params:
+                ds = rd.reaching(node, x.id)
+                if ds is not None and any(d is None for d in ds):
+                    out.append(x.id)
+        stack.extend(ast.iter_child_nodes(x))
+    return out
